@@ -423,6 +423,67 @@ Proof.
 Qed.
 Lemma cache_ok_nil f : cache_ok f []. Proof. intros k v H; discriminate. Qed.
 
+(* ---------------- sessions: a lookup always answers the drawing; a molecule handed out is the caller's ---------------- *)
+Definition caches_ok (f : string -> option nat) (st : sstate) : Prop := forall o, cache_ok f (s_caches st o).
+Lemma sev_next_caches_ok f parse st e : caches_ok f st -> caches_ok f (sev_next f parse st e).
+Proof.
+  intros H. destruct e as [o k obs|i obs|h m|h obs]; simpl; try exact H.
+  destruct (getitem f (s_caches st o) k) as [a c'] eqn:G. intros o'. simpl.
+  destruct (Nat.eqb o' o); [|apply H].
+  pose proof (getitem_spec f (s_caches st o) k (H o)) as [_ E]. rewrite G in E. exact E.
+Qed.
+(* what a lookup event must answer, read off the FILE alone *)
+Definition lookup_spec (f : string -> option nat) (parse : option nat -> res mol) (e : sev) : option (res mol) :=
+  match e with
+  | EGet _ k _ => Some (parse (f k))
+  | EParse i _ => Some (parse (Some i))
+  | _ => None
+  end.
+Fixpoint somes {A} (l : list (option A)) : list A :=
+  match l with [] => [] | Some a :: r => a :: somes r | None :: r => somes r end.
+Theorem session_answers_spec f parse evs : forall st, caches_ok f st ->
+  session_answers f parse st evs = somes (map (lookup_spec f parse) evs).
+Proof.
+  induction evs as [|e evs IH]; intros st H; [reflexivity|].
+  simpl. rewrite (IH _ (sev_next_caches_ok f parse st e H)).
+  destruct e as [o k obs|i obs|h m|h obs]; simpl; try reflexivity.
+  pose proof (getitem_spec f (s_caches st o) k (H o)) as [E _]. rewrite E. reflexivity.
+Qed.
+Lemma caches_ok_init f : caches_ok f s_init. Proof. intros o. apply cache_ok_nil. Qed.
+
+Lemma alloc_keeps r hp h m : nth_error hp h = Some m -> nth_error (alloc r hp) h = Some m.
+Proof.
+  intros H. destruct r as [x|]; simpl; [|exact H].
+  rewrite nth_error_app1; [exact H|]. apply nth_error_Some. rewrite H. discriminate.
+Qed.
+Lemma set_nth_other {A} (x : A) : forall l h h', h <> h' -> nth_error (set_nth h' x l) h = nth_error l h.
+Proof.
+  induction l as [|y l IH]; intros h h' N; [destruct h'; reflexivity|].
+  destruct h' as [|h']; destruct h as [|h]; simpl; try reflexivity; [congruence|].
+  apply IH. congruence.
+Qed.
+Definition edits_of (h : nat) (e : sev) : bool := match e with EEdit h' _ => Nat.eqb h' h | _ => false end.
+(* frame: a molecule the caller holds changes only through the caller's own edits of it -- not through lookups (of the
+   same label or another, on any object), not through edits of other molecules *)
+Theorem session_frame f parse evs : forall st h m,
+  nth_error (s_heap st) h = Some m -> forallb (fun e => negb (edits_of h e)) evs = true ->
+  nth_error (s_heap (session_end f parse st evs)) h = Some m.
+Proof.
+  unfold session_end. induction evs as [|e evs IH]; intros st h m H N; [exact H|].
+  simpl in N. apply andb_true_iff in N as [N1 N2]. simpl. apply IH; [|exact N2].
+  destruct e as [o k obs|i obs|h' m'|h' obs]; simpl.
+  - destruct (getitem f (s_caches st o) k) as [a c']. simpl. apply alloc_keeps, H.
+  - apply alloc_keeps, H.
+  - simpl in N1. rewrite set_nth_other; [exact H|]. intros E. subst. rewrite Nat.eqb_refl in N1. discriminate.
+  - exact H.
+Qed.
+(* ... and its own edit is all that is seen of it afterwards *)
+Lemma set_nth_same {A} (x : A) : forall l h, (h < length l)%nat -> nth_error (set_nth h x l) h = Some x.
+Proof.
+  induction l as [|y l IH]; intros h L; simpl in L; [lia|].
+  destruct h as [|h]; simpl; [reflexivity|]. apply IH. lia.
+Qed.
+
 (* ====================================================================== Part 2 *)
 Local Open Scope R_scope.
 
